@@ -28,6 +28,79 @@ theorem sse_in_response_fragmentation_independent (chunks : List Bytes) (closed 
       respReader.foldl_feed_nil _ (step_line_nil respReader _ httpEol rfl)]
   simp
 
+/-! ### the reconnect boundary: a sequence of streams through one Respondent -/
+
+/-- after the connection dropped and the client re-requested, nothing of the old stream is left but the last event id
+and retry: the reconnect forgets `evented`, ... -/
+theorem reconnect_keeps_only_id_and_retry (s : RespSt) :
+    s.reconnect.evented = none ∧ s.reconnect.leid = s.leid ∧ s.reconnect.retry = s.retry := by
+  unfold RespSt.reconnect; split <;> simp
+
+/-- ... and the head of the next event-stream response builds a NEW event source over an EMPTY line buffer, whatever
+unfinished line, half-built event or pending lone CR the dropped stream left behind (`s.sse`, `s.ssePend` arbitrary) -/
+theorem evented_head_starts_fresh (s s' : RespSt) (h : Hdrs) (hev : s.evented = none)
+    (hd : respHeadDone s h = .ok s') (hs : s'.isEv = true) :
+    s'.sse = {} ∧ s'.ssePend = [] ∧ s'.leid = s.leid ∧ s'.retry = s.retry := by
+  unfold respHeadDone at hd
+  simp only [hev] at hd
+  cases hct : hget h (ascii "content-type") with
+  | none =>
+    simp only [hct] at hd
+    split at hd
+    · simp at hd; subst hd; simp [RespSt.isEv] at hs
+    · split at hd
+      · simp at hd; subst hd; simp [RespSt.isEv] at hs
+      · simp at hd; subst hd; simp [RespSt.isEv] at hs
+  | some c =>
+    simp only [hct] at hd
+    by_cases hc : c.isEmpty = true
+    · simp only [hc] at hd
+      split at hd
+      · simp at hd; subst hd; simp [RespSt.isEv] at hs
+      · split at hd
+        · simp at hd; subst hd; simp [RespSt.isEv] at hs
+        · simp at hd; subst hd; simp [RespSt.isEv] at hs
+    · simp only [hc] at hd
+      split at hd
+      · simp at hd; subst hd; simp [RespSt.isEv] at hs; simp [hs]
+      · split at hd
+        · simp at hd; subst hd; simp [RespSt.isEv] at hs; simp [hs]
+        · simp at hd; subst hd; simp [RespSt.isEv] at hs; simp [hs]
+
+/-- the body bytes of a stream, absorbed in any pieces (reads or chunks), are absorbed as their concatenation -/
+theorem absorb_pieces (d : Bytes) (more : List Bytes) (s : RespSt) :
+    (d :: more).foldl RespSt.absorb s = s.absorb (d ++ more.flatten) := by
+  induction more generalizing d with
+  | nil => simp
+  | cons d2 rest ih =>
+    have := ih (d ++ d2)
+    simp only [List.foldl_cons, List.flatten_cons] at this ⊢
+    rw [RespSt.absorb_absorb, this, List.append_assoc]
+
+/-- the events of stream n+1 depend only on its own bytes: from the fresh event source of `evented_head_starts_fresh`
+the event source after the pieces `ds` is `sseReader` run on their concatenation from the EMPTY state — no byte, field or
+half-built event of an earlier stream takes part; the last event id and retry the Respondent reports are the stream's own
+when it sets them, else the ones carried over the reconnect -/
+theorem stream_events_depend_only_on_own_bytes (ds : List Bytes) (s : RespSt)
+    (hs : s.sse = {}) (hp : s.ssePend = []) (hev : s.isEv = true) :
+    let r := sseReader.run {} ds.flatten
+    (ds.foldl RespSt.absorb s).sse = r.1 ∧ (ds.foldl RespSt.absorb s).ssePend = r.2 ∧
+    (ds.foldl RespSt.absorb s).curLeid = (match r.1.leid with | some x => some x | none => s.leid) ∧
+    (ds.foldl RespSt.absorb s).curRetry = r.1.retry.getD s.retry := by
+  cases ds with
+  | nil =>
+    have h0 : sseReader.run {} [] = ({}, []) := sseReader.run_none _ _ (step_line_nil sseReader _ sseEol rfl)
+    simp [h0, hs, hp, RespSt.curLeid, RespSt.curRetry, hev]
+  | cons d more =>
+    rw [absorb_pieces]
+    have he : (s.absorb (d ++ more.flatten)).isEv = true := by simpa [RespSt.absorb, RespSt.isEv] using hev
+    simp only [List.flatten_cons]
+    simp only [RespSt.curLeid, RespSt.curRetry, he, if_true]
+    simp only [RespSt.absorb, hs, hp, List.nil_append]
+    simp
+    generalize (sseReader.run {} (d ++ more.flatten)).1.leid = o
+    cases o <;> rfl
+
 /-- whole-stream specification: the field interpreter / dispatcher folded over the lines of the stream -/
 def sseSpec (lines : List Bytes) : SseSt := lines.foldl (sseLine utf8Replace) {}
 
